@@ -157,27 +157,39 @@ func rulesFastqLayout(c *Ctx, r *Report) {
 		r.undecided("F4L", where, "accepting return", c.pos(rd.Pos()), fmt.Sprintf("expected one accepting return, found %d", nAcc))
 		return
 	}
-	// Scan calls in dominance order
-	var scans []*ssa.Call
+	// line reads in dominance order: direct Scan calls, or calls of a helper that wraps one Scan
+	type lineRead struct {
+		in ssa.Instruction
+		ok func(target *ssa.BasicBlock) bool // target is reachable only when this read delivered a line
+	}
+	var scans []lineRead
 	instrs(rd, func(in ssa.Instruction) {
-		if cl, ok := in.(*ssa.Call); ok && methIs(cl.Call.StaticCallee(), "bufio", "Scanner", "Scan") && instrDominates(cl, acc) {
-			scans = append(scans, cl)
+		cl, ok := in.(*ssa.Call)
+		if !ok || !instrDominates(cl, acc) {
+			return
+		}
+		if methIs(cl.Call.StaticCallee(), "bufio", "Scanner", "Scan") {
+			scans = append(scans, lineRead{cl, func(t *ssa.BasicBlock) bool { return edgeDominates(cl, true, t) }})
+			return
+		}
+		if g := cl.Call.StaticCallee(); g != nil && g.Blocks != nil && c.inModule(g) && scanWrapper(c, g, cl) {
+			scans = append(scans, lineRead{cl, func(t *ssa.BasicBlock) bool { return errNilEdgeDominates(cl, t) }})
 		}
 	})
 	for i := range scans {
 		for j := i + 1; j < len(scans); j++ {
-			if instrDominates(scans[j], scans[i]) {
+			if instrDominates(scans[j].in, scans[i].in) {
 				scans[i], scans[j] = scans[j], scans[i]
 			}
 		}
 	}
 	okScans := len(scans) == 4
 	for _, sc := range scans {
-		if !edgeDominates(sc, true, acc.Block()) {
+		if !sc.ok(acc.Block()) {
 			okScans = false
 		}
 	}
-	r.check(okScans, "F4L", where, "four lines read", c.pos(acc.Pos()), "the accepting path passes exactly four Scan calls, each on its true edge: a record cut short before its fourth line cannot be accepted", fmt.Sprintf("the accepting path passes %d Scan calls (want 4) or a Scan's false result can reach it: a truncated record can be fabricated", len(scans)))
+	r.check(okScans, "F4L", where, "four lines read", c.pos(acc.Pos()), "the accepting path passes exactly four line reads (Scan, directly or through a helper), each of which delivered a line: a record cut short before its fourth line cannot be accepted", fmt.Sprintf("the accepting path passes %d line reads (want 4) or a failed read can reach it: a truncated record can be fabricated", len(scans)))
 	// views: for a value, which scan produced it (latest Scan dominating its Bytes() call)
 	scanOf := func(v ssa.Value) int {
 		seen := map[ssa.Value]bool{}
@@ -216,7 +228,7 @@ func rulesFastqLayout(c *Ctx, r *Report) {
 		}
 		idx := 0
 		for i, sc := range scans {
-			if instrDominates(sc, b) {
+			if instrDominates(sc.in, b) {
 				idx = i + 1
 			}
 		}
@@ -396,4 +408,86 @@ func rulesScanAliasPkg(c *Ctx, r *Report, rel string) {
 		_, h := detectScanAlias(cc, fs)
 		return len(h)
 	})
+}
+
+// scanWrapper: g calls Scan exactly once, returns a nil error only where that Scan returned true, and every
+// return on the Scan-false side is a constructed error or a parameter for which this call passes a non-nil error.
+func scanWrapper(c *Ctx, g *ssa.Function, call *ssa.Call) bool {
+	if errResultIndex(g.Signature) < 0 || g.Signature.Results().Len() != 1 {
+		return false
+	}
+	var scan *ssa.Call
+	n := 0
+	instrs(g, func(in ssa.Instruction) {
+		if cl, ok := in.(*ssa.Call); ok && methIs(cl.Call.StaticCallee(), "bufio", "Scanner", "Scan") {
+			scan = cl
+			n++
+		}
+	})
+	if n != 1 {
+		return false
+	}
+	ok := true
+	instrs(g, func(in ssa.Instruction) {
+		rt, isRt := in.(*ssa.Return)
+		if !isRt {
+			return
+		}
+		v := retOperands(rt)[0]
+		onTrue := edgeDominates(scan, true, rt.Block())
+		switch {
+		case isNilConst(v):
+			if !onTrue {
+				ok = false
+			}
+		case definitelyNonNilErr(v):
+		default:
+			if onTrue {
+				ok = false // a possibly non-nil error although the line was read: not a pure wrapper
+				return
+			}
+			p, isParam := v.(*ssa.Parameter)
+			if !isParam {
+				ok = false
+				return
+			}
+			for i, q := range g.Params {
+				if q == p {
+					a := call.Call.Args[i]
+					if !(definitelyNonNilErr(a) || isEOFLoad(a)) {
+						ok = false
+					}
+				}
+			}
+		}
+	})
+	return ok
+}
+
+// errNilEdgeDominates: target is reachable from call's block only through the edge on which call's error result is nil.
+func errNilEdgeDominates(call *ssa.Call, target *ssa.BasicBlock) bool {
+	for _, ref := range *call.Referrers() {
+		bo, ok := ref.(*ssa.BinOp)
+		if !ok || (bo.Op != token.NEQ && bo.Op != token.EQL) {
+			continue
+		}
+		if !(isNilConst(bo.Y) || isNilConst(bo.X)) {
+			continue
+		}
+		for _, r2 := range *bo.Referrers() {
+			iff, ok := r2.(*ssa.If)
+			if !ok {
+				continue
+			}
+			b := iff.Block()
+			nilSucc, errSucc := b.Succs[1], b.Succs[0]
+			if bo.Op == token.EQL {
+				nilSucc, errSucc = errSucc, nilSucc
+			}
+			if len(nilSucc.Preds) == 1 && nilSucc.Dominates(target) && !blockReaches(errSucc, target) && errSucc != target {
+				return true
+			}
+		}
+	}
+	return false
 }
